@@ -107,7 +107,7 @@ fn alphabet(n: usize, tier: Tier) -> Vec<Dev> {
             true
         }));
     }
-    for p in ["", "p_", "é/"] {
+    for p in ["", "p_", "é/", "K", "Bb", "Kk"] {
         d.push(dev(format!("prefix={:?}", p), &["prefix"], move |s| {
             s.prefix = Some(p.to_string());
             true
@@ -137,6 +137,7 @@ fn alphabet(n: usize, tier: Tier) -> Vec<Dev> {
     }
     d.extend(crate::devs::rich_generic_devs(true));
     d.extend(crate::devs::context_devs());
+    d.extend(crate::devs::rare_shape_devs(n, true));
     d.extend(crate::devs::syntax_devs(true, false, true, false));
     d
 }
@@ -187,7 +188,7 @@ pub fn programs(tier: Tier) -> ProgramSet {
     }
     let mut ex = std::collections::BTreeMap::new();
     ex.insert("tie in byte length between serialize literals".to_string(), excluded);
-    ProgramSet { programs: finish(out), excluded: ex, bounds: json!({"plan_(N,k)": if tier == Tier::Quick { json!([[3,1],[2,2]]) } else { json!([[3,2],[2,3]]) }, "styles": 16, "prefixes": ["", "p_", "é/"]}) }
+    ProgramSet { programs: finish(out), excluded: ex, bounds: json!({"plan_(N,k)": if tier == Tier::Quick { json!([[3,1],[2,2]]) } else { json!([[3,2],[2,3]]) }, "styles": 16, "prefixes": ["", "p_", "é/", "K", "Bb", "Kk"]}) }
 }
 
 pub fn render(spec: &EnumSpec) -> String {
